@@ -313,6 +313,79 @@ def alias_mutate(d, op):
         raise ValueError(op)
 
 
+XFORM_CHAINS = ["shift0", "shift1", "shift2", "center", "neg", "zero_some", "neg+zero_some", "shift1+neg", "shift0+pa",
+                "shift1+rank", "shift1+norm", "shift2+zero_some", "zero_some+shift0", "shift0+pa+subsample",
+                "neg+shift1+rank", "shift1+scale", "zero_all_but_one+neg", "shift1+swap_ids"]
+
+
+def xform_route(base, pre, chain, axis, inplace):
+    return "xform:%s:%d:%s:%s:%d" % (base, pre, chain, axis, 1 if inplace else 0)
+
+
+def apply_xform(t, pre, chain, axis, inplace):
+    """optional reads along `axis`, then a chain of transforms whose results mix zeros with negative and positive
+    values and all-zero vectors (v - c for a stored value c, v * 0 on some IDs, sign flips), followed by
+    norm / pa / rankdata / subsample; in place or through inplace=False.  NOTHING is asked of the result here."""
+    import numpy as np
+    ids = [x for x in t.ids(axis=axis)]
+    if t.shape[0] == 0 or t.shape[1] == 0:
+        raise Skip()
+    if pre >= 2:
+        list(t.iter(axis=axis))
+    if pre >= 1:
+        for i in ids:
+            t.data(i, axis=axis)
+
+    def tr(f):
+        r = t.transform(f, axis=axis, inplace=bool(inplace))
+        return t if inplace else r
+    for op in chain.split("+"):
+        vals = sorted({float(x) for x in t.matrix_data.data if x != 0})
+        if op.startswith("shift"):
+            if not vals:
+                raise Skip()
+            k = int(op[5:])
+            c = vals[min(len(vals) - 1, [len(vals) // 2, len(vals) - 1, 0][k])]
+            t = tr(lambda v, i, m, c=c: v - c)
+        elif op == "center":
+            t = tr(lambda v, i, m: v - (np.round(v.mean()) if len(v) else 0))
+        elif op == "neg":
+            t = tr(lambda v, i, m: -v)
+        elif op == "zero_some":
+            some = set(ids[::2])
+            t = tr(lambda v, i, m, some=some: v * 0 if i in some else v)
+        elif op == "zero_all_but_one":
+            t = tr(lambda v, i, m, keep=ids[-1]: v if i == keep else v * 0)
+        elif op == "scale":
+            t = tr(lambda v, i, m: v * 2)
+        elif op == "pa":
+            t = t.pa(inplace=True) if inplace else t.pa(inplace=False)
+        elif op == "rank":
+            t = t.rankdata(axis=axis, inplace=True) if inplace else t.rankdata(axis=axis, inplace=False)
+        elif op == "norm":
+            d = t.matrix_data.toarray()
+            tot = d.sum(axis=1 if axis == "observation" else 0)
+            if (tot == 0).any():
+                raise Skip()
+            t = t.norm(axis=axis, inplace=True) if inplace else t.norm(axis=axis, inplace=False)
+        elif op == "subsample":
+            d = t.matrix_data.toarray()
+            if d.size == 0 or (d < 0).any() or (d != d.astype(int)).any() or d.sum() == 0:
+                raise Skip()
+            t = t.subsample(1, axis=axis, seed=2)
+        elif op == "swap_ids":
+            if len(ids) < 2:
+                raise Skip()
+            t = t.update_ids({ids[0]: ids[-1], ids[-1]: ids[0]}, axis=axis, strict=False, inplace=bool(inplace))
+        else:
+            raise ValueError(op)
+        if t.shape[0] == 0 or t.shape[1] == 0:
+            raise Skip()
+    if not np.isfinite(t.matrix_data.data).all():
+        raise Skip()
+    return t
+
+
 def reorder_keys(md, which):
     """the same entries with the key insertion order reversed on the IDs in `which` (never the first ID)"""
     out = []
@@ -378,6 +451,17 @@ def build_operand(spec, route, need_model=True):
             # is the model's input, the identity fields stay those of the construction
             mi = dict(mi, layout=flat_rowmajor(src.matrix_data), fmt=fmt_label(src.matrix_data), ctor=False)
         return src, mi, facts
+    if route.startswith("xform:"):
+        _, base_route, pre, chain, axis, inpl = route.split(":")
+        t = build_operand(spec, base_route, need_model=False)[0]
+        t = apply_xform(t, int(pre), chain, axis, int(inpl))
+        if not need_model:
+            return t, None, facts
+        # (table_obs reads ids / metadata / matrix_data only: nothing that could heal a stale layout)
+        c = core.table_obs(t)
+        mi = {"type": c["type"], "obs": c["obs"], "samp": c["samp"], "omd_in": c["omd"], "smd_in": c["smd"],
+              "layout": flat_rowmajor(t.matrix_data), "ctor": False, "fmt": fmt_label(t.matrix_data)}
+        return t, mi, facts
     if route.startswith("inplace:"):
         _, base_route, pre, op, axis = route.split(":")
         t = build_operand(spec, base_route, need_model=False)[0]
@@ -893,7 +977,15 @@ def _run_pair(ctx, case, tags=()):
     "expect":"equal"|"differs"}"""
     try:
         a, mia, fa = build_operand(case["spec_a"], case["route_a"])
-        if case["spec_b"] is None:
+        if case["spec_b"] is None and case["route_b"] == "copy_of_a":
+            # partner = the first operand's own copy()
+            b = a.copy()
+            cobs = core.table_obs(b)
+            mib = {"type": cobs["type"], "obs": cobs["obs"], "samp": cobs["samp"], "omd_in": cobs["omd"],
+                   "smd_in": cobs["smd"], "layout": flat_rowmajor(b.matrix_data), "ctor": False,
+                   "fmt": fmt_label(b.matrix_data)}
+            fb = {}
+        elif case["spec_b"] is None:
             # partner = construction (by route_b) of the content the first operand has reached
             b, mib, fb = build_operand(spec_of_table(a), case["route_b"])
         else:
@@ -911,7 +1003,9 @@ def _run_pair(ctx, case, tags=()):
         if f and not f.get("in_sorted", True):
             ctx.count("ctor-input:unsorted-indices")
     # per-cell / per-ID queries first, on twins built the same way that nothing has touched
-    if case["spec_b"] is None:
+    if case["spec_b"] is None and case["route_b"] == "copy_of_a":
+        b2 = build_operand(case["spec_a"], case["route_a"], need_model=False)[0].copy()
+    elif case["spec_b"] is None:
         b2 = build_operand(spec_of_table(build_operand(case["spec_a"], case["route_a"])[0]), case["route_b"],
                            need_model=False)[0]
     else:
@@ -1434,12 +1528,12 @@ def run(ctx):
             run_pair(ctx, pair_case(spec2, "lol_coo_zeros", spec2d, "csc", steps, "differs"), ("interleaving",))
             run_pair(ctx, pair_case(spec3, "copy", spec3, "csr_unsorted", steps, "equal"), ("interleaving", "nonuniform-md"))
     if quick:
-        for _ in range(150):
+        for _ in range(90):
             run_pair(ctx, pair_case(spec2, rng.choice(CTOR_SPARSE), spec2, rng.choice(FORMS[:8]), gen_steps(rng, 3),
                                     "equal"), ("interleaving", "random-3"))
 
     # 3. all routes against each other on random specs
-    n_specs = 30 if quick else 150
+    n_specs = 26 if quick else 150
     for k in range(n_specs):
         spec = gen_spec(rng, quick)
         routes = list(ALL_ROUTES)
@@ -1497,6 +1591,22 @@ def run(ctx):
         else:
             run_pair(ctx, pair_case(spec, rb, spec, ra, st, "equal", exports=(k % 12 == 1), qorder=qorder),
                      ("inplace", "op=" + op))
+
+    # 4d2. transforms whose results mix zeros with negative / positive values and all-zero vectors, then
+    #      norm / pa / rankdata / subsample, on both axes, in place and not: the result is compared FIRST (before
+    #      anything could read nnz) with an independent construction of the same dense content, both ways, and with
+    #      its own copy()
+    for k in range(150 if quick else 1500):
+        spec = core.gen_spec(rng, max_n=4, max_m=4, classes=[("smallcount",), ("smallcount", "count"), VALUE_CLASSES][k % 3],
+                             density=rng.choice([0.6, 0.8, 1.0]))
+        axis = ["observation", "sample"][k % 2]
+        chain = XFORM_CHAINS[(k // 2) % len(XFORM_CHAINS)]
+        inplace = (k // 4) % 2 == 0
+        ra = xform_route(rng.choice(["dense", "csc", "csr_unsorted", "lol_coo_zeros"]), rng.choice([0, 0, 1]), chain, axis, inplace)
+        rb = ["dense", "copy_of_a", "csr", "lol_coo_zeros", "copy_of_a", "csc"][k % 6]
+        st = gen_steps(rng, rng.choice([0, 1, 2]))
+        ctx.count("xform=%s" % chain)
+        run_pair(ctx, pair_case(spec, ra, None, rb, st, "equal", exports=(k % 15 == 0)), ("xform", "chain=" + chain))
 
     # 4e. metadata dicts that differ only in key insertion order on some IDs: equal tables, equal exports
     for k in range(50 if quick else 600):
@@ -1594,7 +1704,7 @@ def run(ctx):
             run_pair(ctx, pair_case(other, rb, spec, ra, st, "differs"), ("single-difference", "mutation=" + kind))
 
     # 6. kernel level: dataEq vs the real _data_equality, eliminateZeros vs scipy's eliminate_zeros
-    for k in range(700 if quick else 12000):
+    for k in range(600 if quick else 12000):
         run_kernel(ctx, gen_kernel_case(rng), ("kernel",))
 
     state_cases("late")
